@@ -110,6 +110,9 @@ SPLITS = [
     ["1: .word 1\nsob r0, 1\n", "G:: nop\n1: .word 1\nbr 1\n"],
     [".byte {X}\n", ".byte 2\n", ".even\nZ:: .word Z\n"],
     ["A:: .blkb 3\n", ".even\n.repeat 2 { .word . }\n"],
+    # references spelled in another letter case than the exporting definition, forward and backward across files
+    ["mov #Tail, r0\nHead:: .word {X}, TAIL\n", "clr HEAD\ncnt == {X} + 1\n.word head, CNT\n", "tail:: .word Cnt, hEAD\n"],
+    [".word Start, LIM\n", "START:: .word lim\nLim = {X}\n.extern LIM\n"],
 ]
 
 
@@ -199,7 +202,13 @@ def h_end(params, vals, ctx):
     require(-65536 < x < 65536)
     kind = params["kind"]
     junk = "\n.word 18\nmov #1\nfrobnicate\nA: .word {X}\n"
-    if kind == "single":
+    if params.get("junk") == "unparsable":
+        junk = "\n))) {X}\n}\n^Z 'x\n.ascii \"abc\n"   # text that is not even a statement; nothing after '.end' is read
+    sp = params.get("spelling")
+    if sp:
+        f_end = [("/w/a.mac", ".link {B}\nA: .word A, {X}\n" + sp + junk)]
+        f_ref = [("/w/a.mac", ".link {B}\nA: .word A, {X}\n")]
+    elif kind == "single":
         f_end = [("/w/a.mac", ".link {B}\nA: .word A, {X}\n.end" + junk)]
         f_ref = [("/w/a.mac", ".link {B}\nA: .word A, {X}\n")]
     elif kind == "first-of-two":
@@ -285,6 +294,33 @@ def h_once_cycle(params, vals, ctx):
     src = os.path.join(AUX, "main_cycle.mac")
     tail = f'.include "cyb{sfx}.mac"\n' if kind == "re-entered" else ""
     o1 = assemble([(src, f'.link {{B}}\n.word 1\n.include "cya{sfx}.mac"\n' + tail + ".word 2\n")], vals, route=ctx.route, order=order)
+    o2 = assemble([(src, ".link {B}\n.word 1\n" + ref + ".word 2\n")], vals, route=ctx.route, order=order)
+    ctx.observe_outcome(o1)
+    ctx.observe_outcome(o2)
+    ctx.reach(o1.status == "ok" and o2.status == "ok")
+    if o1.status != "ok" or o2.status != "ok" or o1.errors:
+        return False
+    return same(o1, o2)
+
+
+def h_once_spellings(params, vals, ctx):
+    """One '.once' file reached under two spellings (from the main file through its directory, from its sibling by its bare name),
+    and nested relative paths below a subdirectory: the file is one file, whatever it is called where it is included."""
+    b, x = vals["B"], vals["X"]
+    require(0 <= b <= 30000 and b % 2 == 0)
+    require(-65536 < x < 65536)
+    order = ["B", "X"]
+    xs = "^D9001" if ctx.route == "inject" else _lit(x)
+    sfx = "" if ctx.route == "inject" else f"_t{os.getpid()}"
+    d = f"sp{sfx}/lib"
+    write_aux_file("c16/" + d, "a.mac", f".once\nOA:: .word OA, {xs}\n")
+    write_aux_file("c16/" + d, "b.mac", '.include "a.mac"\n.word 5\ninsert_file "blob.bin"\n.even\n')
+    write_aux_file("c16/" + d, "blob.bin", b"\x07\x08\x09")
+    src = os.path.join(AUX, f"sp{sfx}", "main.mac")
+    first, second = ("a", "b") if params["order"] == "a-then-b" else ("b", "a")
+    o1 = assemble([(src, f'.link {{B}}\n.word 1\n.include "lib/{first}.mac"\n.include "lib/{second}.mac"\n.word 2\n')], vals, route=ctx.route, order=order)
+    body = {"a": f"OA:: .word OA, {xs}\n", "b": ".word 5\n.byte 7, 10, 11\n.even\n"}
+    ref = (body["a"] + body["b"]) if first == "a" else (body["a"] + body["b"])   # b pulls a in first when it comes first
     o2 = assemble([(src, ".link {B}\n.word 1\n" + ref + ".word 2\n")], vals, route=ctx.route, order=order)
     ctx.observe_outcome(o1)
     ctx.observe_outcome(o2)
@@ -413,6 +449,11 @@ def obligations(tier, seed):
     obs.append(Ob(oid="insert/symbolic", harness=P + "h_insert_symbolic", params={}, vars={"B": "int", "DATA": "bytes"}, timeout=900))
     for kind in ("single", "first-of-two", "bare-end", "included"):
         obs.append(Ob(oid=f"end/{kind}", harness=P + "h_end", params={"kind": kind}, vars={"B": "int", "X": "int"}, timeout=300))
+    for sp in (".end", ".END", ".End", "END", "End"):
+        obs.append(Ob(oid=f"end/spelled-{sp}/unparsable-rest", harness=P + "h_end", params={"kind": "single", "spelling": sp, "junk": "unparsable"},
+                      vars={"B": "int", "X": "int"}, timeout=300))
+    for order_ in ("a-then-b", "b-then-a"):
+        obs.append(Ob(oid=f"once-spellings/{order_}", harness=P + "h_once_spellings", params={"order": order_}, vars={"B": "int", "X": "int"}, timeout=300))
     for kind in ("mutual", "self", "re-entered"):
         obs.append(Ob(oid=f"once-cycle/{kind}", harness=P + "h_once_cycle", params={"kind": kind}, vars={"B": "int", "X": "int"}, timeout=300))
     for kind in ("linked-then-included", "linked-twice", "included-then-linked"):
